@@ -456,11 +456,29 @@ def check_conn(eng, run):
     run.ob("C15.conn", f"{h.short}:no-return-before-request-phase", not an.viol)
 
 
+def check_shared(eng, run):
+    """(a) the restart loop of the high-level handler stops on client.is_closing(): the server-side client API stores its closing flag
+    before it closes the connection, on the graceful and on the cancelled path alike (close-path typestate of C14);
+    (b) a yielded timeout that expires must leave the buffered receive path usable: the caller's buffer lent to the event loop is
+    withdrawn on every exit (lend typestate of C10)."""
+    from rules import c10, c14
+    from sa.analyses.closing import CloserRegistry
+    from sa.report import RuleAlias
+
+    api = eng.db.module("servers.async_tcp").classes.get("_ConnectedClientAPI")
+    fn = api.methods.get("aclose") if api else None
+    if fn is None:
+        raise AnalysisError("anchor vanished: _ConnectedClientAPI.aclose")
+    c14.check_close_path(eng, RuleAlias(run, "C15.conn"), CloserRegistry(eng), fn)
+    c10.check_lend(eng, run, rule="C15.recv", cancel_arm=False)
+
+
 def run(eng, run):
     run.not_decided += NOT_DECIDED
     check_drive(eng, run)
     check_receivers(eng, run)
     check_conn(eng, run)
+    check_shared(eng, run)
 
 
 # ---------------------------------------------------------------------------------------------- self-test corpus
@@ -519,4 +537,26 @@ BENIGN = [
     Variant("client-coroutine-rename-action", _CC, lambda fn: rename_local(fn, "action", "act"), why="local renamed (role variables are passed by name: see instances)"),
     Variant("handler-rename-timeout", _HD, lambda fn: rename_local(fn, "exc", "error"), why="handler variable renamed"),
     Variant("receiver-rename-data", _RR, lambda fn: rename_local(fn, "data", "chunk"), why="local renamed"),
+]
+
+
+_API = "servers.async_tcp:_ConnectedClientAPI.aclose"
+_WFD = "lowlevel.api_async.backend._asyncio.stream.socket:StreamReaderBufferedProtocol._wait_for_data"
+
+
+def _flag_after_try(fn):
+    for n in list(ast.walk(fn)):
+        for fld in ("body", "orelse", "finalbody"):
+            blk = getattr(n, fld, None)
+            if isinstance(blk, list):
+                blk[:] = [st for st in blk if not (isinstance(st, ast.Assign) and "__closing" in ast.unparse(st))]
+    fn.body.append(ast.parse("self.__closing = True").body[0])
+
+
+MUTANTS += [
+    Variant("client-api-closing-flag-set-after-the-close", _API, _flag_after_try, "C15.conn",
+            why="a forced close leaves is_closing() False: handle() is restarted on a closed connection (seed C15-5)"),
+    Variant("recv-into-buffer-not-withdrawn-after-timeout", _WFD,
+            lambda fn: replace_stmt(fn, stmt_is("try:"), "nbytes_written_in_external_buffer = await self.__read_waiter\nself.__external_buffer_view = None", 1), "C15.recv",
+            why="after an expired yielded timeout the loop is handed a released buffer: the connection is dropped (seed C15-6)"),
 ]
